@@ -5,7 +5,7 @@ seed="$1"; id="$2"; shift 2
 wt="/tmp/seedrun-$seed-$id"
 git -C /repo worktree remove --force "$wt" 2>/dev/null
 git -C /repo worktree add -q --detach "$wt" HEAD || exit 9
-trap 'git -C /repo worktree remove --force "$wt" 2>/dev/null' EXIT
+trap 'git -C /repo worktree remove --force "$wt" 2>/dev/null; rm -rf "$wt.hmod"' EXIT
 git -C "$wt" apply "/verif/seeded/$seed/patch.diff" || { echo "$seed: PATCH DOES NOT APPLY"; exit 8; }
 VF_REPO="$wt" /verif/vf check "$id" --no-evidence "$@" > "/tmp/seedrun-$seed-$id.log" 2>&1
 rc=$?
